@@ -451,6 +451,11 @@ pub fn run_script_in(
     }
     for (idx, step) in script.steps.iter().enumerate() {
         let begin = begin_json(script, idx, step);
+        assert!(
+            begin["pos"].as_i64().unwrap() >= -1 && begin["p"].as_i64().unwrap() >= -1,
+            "script {} step {idx}: position argument cannot be encoded (not within 2^24 of an anchor)",
+            script.name
+        );
         let probe_seed = (run_id as u64) << 32 | idx as u64;
         if let Step::Restart = step {
             drop(runner.log.take());
